@@ -349,6 +349,44 @@ func init() {
 				})
 			})
 		}
+		// an option list that is the prefix of a longer list of the caller's: a walk with the prefix, then a walk with the
+		// whole list, which must still have all its options (both are judged against the model)
+		{
+			fm := fmtTuples[1]
+			full := make([]gtree.Option, 0, 8)
+			full = append(full, gtree.WithBranchFormatIntermedialNode(fm.MidDirect, fm.MidIndirect), gtree.WithBranchFormatLastNode(fm.LastDirect, fm.LastIndirect))
+			d, names := []int{1, 2, 3, 2, 3}, []string{"r", "a", "b", "c", "d"}
+			f := enum.Build(d, names)
+			for k := 0; k <= 2 && c.Take(); k++ {
+				for _, route := range []string{"md", "root"} {
+					for _, opts := range [][]gtree.Option{full[:k], full} {
+						var rows []string
+						cb := func(wn *gtree.WalkerNode) error { rows = append(rows, wn.Row()); return nil }
+						var err error
+						if route == "md" {
+							err = gtree.WalkFromMarkdown(strings.NewReader(enum.Spell(d, names, enum.Canonical)), cb, opts...)
+						} else {
+							err = gtree.WalkFromRoot(sut.BuildRoot(f[0]), cb, opts...)
+						}
+						eff := model.DefaultFmt
+						if len(opts) >= 1 {
+							eff.MidDirect, eff.MidIndirect = fm.MidDirect, fm.MidIndirect
+						}
+						if len(opts) >= 2 {
+							eff.LastDirect, eff.LastIndirect = fm.LastDirect, fm.LastIndirect
+						}
+						var want []string
+						for _, r := range model.Rows(model.MergeNode(f[0]), eff) {
+							want = append(want, r.Line)
+						}
+						c.Eval()
+						if err != nil || strings.Join(rows, "\n") != strings.Join(want, "\n") {
+							c.Violation("C05|option-list-prefix|"+route, fmt.Sprintf("walk with %d of the caller's 2 options (prefix length walked before: %d): err=%v rows=%q want %q", len(opts), k, err, rows, want), k, nil)
+						}
+					}
+				}
+			}
+		}
 		// walk, Add a node anywhere, walk the same root again: the second walk must describe the grown tree
 		// (branches are recomputed, nothing is remembered from the first walk)
 		wn := 5
@@ -433,6 +471,10 @@ func init() {
 					c.StateN(1)
 					c.Nontrivial()
 					c05Judge(c, "md", doc, f, model.DefaultFmt, 0)
+					c05Judge(c, "md", doc, f, model.DefaultFmt, 0, "", "dry") // all of these names are single path elements
+					if len(f) == 1 {
+						c05Judge(c, "iter", doc, f, model.DefaultFmt, 0, "", "dry,exts")
+					}
 					out, _, _ := sut.Output(doc)
 					rows, _, _, _ := c05Run("md", doc, nil, model.DefaultFmt, 0)
 					var sb strings.Builder
@@ -462,4 +504,4 @@ func init() {
 	}
 }
 
-var pathSafeHostile = []string{"a", "- x", "*", "é日本", "a b", "a-b", "+x*", "#h", "100%d", "<&>", "p ├── q", "C#"}
+var pathSafeHostile = []string{"a", "- x", "*", "é日本", "a b", "a-b", "+x*", "#h", "100%d", "<&>", "p ├── q", "C#", "a\\b"}
